@@ -52,6 +52,8 @@ inline const std::vector<S>& default_fills() {
 // every Op derives from this for defaults
 struct OpBase {
     template<class S> static bool in_domain(S, S, S) { return true; }
+    // tuples that may not even sit in a neighbouring lane (the statement says nothing about them): replaced by (1,1,1)
+    template<class S> static bool may_execute(S, S, S) { return true; }
     template<class S> static bool nontrivial(S, S, S) { return true; }
     template<class S> static bool same(std::uint64_t e, std::uint64_t g) { return e == g; }
     template<class S> static const std::vector<S>& fills() { return default_fills<S>(); }
@@ -138,6 +140,7 @@ struct OpVT {
 template<class S, class Op>
 VX_NOINLINE void model_block_fn(Buffers<S>& B, unsigned n) {
     for (unsigned i = 0; i < n; ++i) {
+        if (!Op::may_execute(B.a[i], B.b[i], B.c[i])) { B.a[i] = S(1); B.b[i] = S(1); B.c[i] = S(1); B.dom[i] = false; B.e[i] = 0; B.nt[i] = false; continue; }
         B.dom[i] = Op::in_domain(B.a[i], B.b[i], B.c[i]);
         B.e[i] = B.dom[i] ? Op::model(B.a[i], B.b[i], B.c[i]) : 0;
         B.nt[i] = B.dom[i] && Op::nontrivial(B.a[i], B.b[i], B.c[i]);
@@ -269,7 +272,7 @@ struct RunnerS {
         const std::vector<S>* fills;
         void operator()() {
             r->phase1(*d);
-            if (K) r->phase2(*K, *fills);
+            if (K && !K->empty()) r->phase2(*K, *fills);
         }
     };
     struct ReplayJob {
